@@ -217,12 +217,21 @@ def lens_events(optic, meta, rnd, quick, label):
     m = rnd.randint(2, 4 if quick else 12)
     dk = rnd.choice(["hexapolar", "uniform", "random"])
     nn = rnd.randint(3, 5)
-    rv = G.quiet(RmsWavefrontErrorVsField, optic, m, [w], nn, make_distribution(dk, nn, seed=rnd.randrange(1 << 30)))
+    # (two wavelengths whenever the lens has them: every column of the table is its own wavelength's curve)
+    wl2 = [w] + [x for x in wls if x != w][:1]
+    rv = G.quiet(RmsWavefrontErrorVsField, optic, m, wl2, nn, make_distribution(dk, nn, seed=rnd.randrange(1 << 30)))
     xs, ys = np.array(rv.distribution.x, dtype=float), np.array(rv.distribution.y, dtype=float)
     # the curve must be evaluated on the documented samples of (distribution, num_rays)
     ev.append(dict({"kind": "count", "dist": dk, "n": int(nn), "npts": int(len(np.array(rv.data[0][0][0])))},
                    _tag=dict(base, view="RmsWavefrontErrorVsField.samples", dist=dk, num_rays=nn)))
     for k in sorted(set([0, m - 1, rnd.randrange(m)])):
+        for jw in range(1, len(wl2)):
+            ev.append(dict(W.rms_event(np.array(rv.data[k][jw][0], dtype=float), rv._wavefront_error[k, jw]),
+                           _tag=dict(base, view="RmsWavefrontErrorVsField.rms", dist=dk, num_rays=nn)))
+            if k == m - 1:
+                ev += block_events(optic, (0.0, 1.0), wl2[jw], xs, ys, np.array(rv.data[k][jw][0], dtype=float),
+                                   np.array(rv.data[k][jw][1], dtype=float), pick(rnd, len(xs), 2, []), True,
+                                   dict(base, view="RmsWavefrontErrorVsField", dist=dk, num_rays=nn))
         opds = np.array(rv.data[k][0][0], dtype=float)
         ev.append(dict(W.rms_event(opds, rv._wavefront_error[k, 0]),
                        _tag=dict(base, view="RmsWavefrontErrorVsField.rms", dist=dk, num_rays=nn)))
